@@ -502,7 +502,7 @@ func (x *Exec) frameCheckElemRange(st *State, key string, arr, lo, hi, guard *Te
 	i := c.NewBound("i", SInt)
 	inm := x.inModElem(x.mods, key, arr, i)
 	all := c.Forall([]*Term{i}, c.Implies(c.InRange(i, lo, hi), inm))
-	cond := c.Implies(guard, c.Or(c.Gt(arr, x.entryAlloc()), c.Le(hi, lo), all))
+	cond := c.Implies(guard, c.Or(c.Gt(arr, x.entryAlloc()), c.Le(hi, lo), c.Eq(arr, c.Int(0)), all))
 	x.oblige(st, "frame", key, site, "range write stays within the modifies clause or a fresh array", cond)
 }
 
@@ -560,7 +560,7 @@ func (x *Exec) calleeFrameCheck(st *State, ms *ModSet, site string) {
 		} else {
 			i := c.NewBound("i", SInt)
 			all := c.Forall([]*Term{i}, c.Implies(c.InRange(i, e.lo, e.hi), x.inModElem(x.mods, e.prefix, e.arr, i)))
-			cond = c.Or(c.Gt(e.arr, x.entryAlloc()), c.Le(e.hi, e.lo), all)
+			cond = c.Or(c.Gt(e.arr, x.entryAlloc()), c.Le(e.hi, e.lo), c.Eq(e.arr, c.Int(0)), all)
 		}
 		x.oblige(st, "frame", "callee:"+e.src, site, "callee footprint within the unit's modifies clause", cond)
 	}
